@@ -436,6 +436,15 @@ def gen_model_cfg(rng, D, classes=("UNet", "UNet", "ResNet", "ResNet", "DilResNe
             cfg["N"] = [int(v) for v in (rng.integers(3, 7, size=D) if D == 2 else rng.integers(3, 5, size=D))]
             if rng.integers(0, 2):
                 cfg["N"] = [cfg["N"][0]] * D
+        # explicit mid_keys (a constructor setting of the three model classes): the union in another order, sometimes with
+        # one more type; U-Net levels derive their channels from `depth`, so its mid channels equal depth
+        if equivariant and cls in ("UNet", "ResNet", "DilResNet") and rng.integers(0, 4) == 0:
+            mids = list(dict.fromkeys(ins + outs))
+            extra = [t for t in pool if t not in mids]
+            if extra and rng.integers(0, 2):
+                mids.append(extra[int(rng.integers(len(extra)))])
+            mids = [mids[i] for i in rng.permutation(len(mids))]
+            cfg["mid"] = [[list(t), cfg["depth"] if cls == "UNet" else int(rng.integers(1, 4))] for t in mids]
         if not equivariant:
             cfg["kernel_size"] = 3
         if equivariant:
@@ -469,6 +478,8 @@ def build_model(cfg, key_int):
         kw["kernel_size"] = cfg.get("kernel_size", 3)
     cls = cfg["cls"]
     act = cfg["activation"]
+    if cfg.get("mid") and kw["equivariant"] and cls in ("UNet", "ResNet", "DilResNet"):
+        kw["mid_keys"] = signature(sig_of(cfg["mid"]))
     if cls in ("ConvBlock", "ConvBlockPre"):
         return models.ConvBlock(D, in_sig, out_sig, activation_f=act, use_group_norm=cfg["norm"], preactivation_order=(cls == "ConvBlockPre"), key=key, **kw)
     if cls == "ResNet":
